@@ -351,6 +351,7 @@ func (c *Checker) expandMacro(macro *types.Method, kind ast.MacroKind, posArgs [
 	patternNodeType := c.StdPatternNode()
 	typeNodeType := c.StdTypeNode()
 
+	concurrent.VerifPoint("checker.expandMacro")
 	checkedArgs := c.checkMacroArguments(macro, posArgs, namedArgs, loc)
 
 	var expectedReturnType types.Type
